@@ -7,6 +7,7 @@ import (
 	"fmt"
 	"net"
 	"os"
+	"strconv"
 	"strings"
 	"sync"
 	"testing"
@@ -81,7 +82,19 @@ func File(c Case) []byte {
 			items = append(items, rdbgen.Aux(rdbgen.RawStr([]byte("lua"), rdbgen.LCanon), rdbgen.RawStr([]byte("return '"+k.Name+"'"), rdbgen.LCanon)))
 			continue
 		}
-		items = append(items, rdbgen.Key(rdbgen.RawStr([]byte(k.Name), rdbgen.LCanon), value(k), rdbgen.KeyOpts{}))
+		name := rdbgen.RawStr([]byte(k.Name), rdbgen.LCanon)
+		if n, err := strconv.ParseInt(k.Name, 10, 64); err == nil && strconv.FormatInt(n, 10) == k.Name {
+			// Redis stores an integer-looking key name integer-encoded
+			switch {
+			case n >= -128 && n <= 127:
+				name = rdbgen.IntStr(n, 8)
+			case n >= -32768 && n <= 32767:
+				name = rdbgen.IntStr(n, 16)
+			case n >= -2147483648 && n <= 2147483647:
+				name = rdbgen.IntStr(n, 32)
+			}
+		}
+		items = append(items, rdbgen.Key(name, value(k), rdbgen.KeyOpts{}))
 	}
 	file, _ := rdbgen.File(9, items)
 	return file
@@ -391,6 +404,8 @@ func Scenarios() []Case {
 		{k(0, "pa", "string"), k(0, "s1", "lua"), k(1, "pb", "string"), k(1, "s2", "lua")},
 		{k(0, "pa", "string"), k(1, "pa", "list"), k(2, "pa", "hash"), k(1, "qb", "string")},
 		{k(0, "pa", "string"), k(1, "pb", "list"), k(0, "pc", "hash"), k(2, "pd", "string"), k(1, "pe", "string"), k(0, "s1", "lua")},
+		// integer-looking key names (integer-encoded in the RDB)
+		{k(0, "12", "string"), k(0, "-7", "list"), k(1, "1234", "hash"), k(1, "70000", "string")},
 		// filtered entries (key whitelist p) sitting exactly where a worker has to switch database
 		{k(1, "qa", "string"), k(1, "pb", "string"), k(2, "qc", "list"), k(2, "pd", "hash"), k(2, "pe", "string")},
 	}
